@@ -1,10 +1,18 @@
-/- Line-protocol driver for the C10 batcher model.
+/- Line-protocol driver for the C10 models.
+   fnb <n> (<shape> <bdim> <offset>)*n  -> <outdim|n> <shape> | <values>      FunctionPlugin._batching_rule with the
+     per-example function F(x0, x1, ..) = flip(x0, axis=-1) + 1024 * Σ_j (j+2) * sum(x_{j+1})
+   adp U=<names> A=<o>n,..> R=<o>n:ov:fb,..> J=<names> T=<names> X=<names> I=<names> L=<names> P=<names>
+     -> raises | (<name>:<jvp>/<transpose>/<batcher>)*      rule = own.<owner> | fallback | -
+   redlane <shape> <bdim> <axes|none> <kd 0|1> <b>  -> <shape> | <values>     lane b of the batched reduction
+   Line-protocol driver for the C10 batcher model.
    bat <n> (<shape> <bdim> <offset>)*n   shape: `s` (scalar) or dims joined by `x`; bdim: int or `n`
      -> raises | incompatible | <outdim> <shape> | <values row-major>
    Operands are the tensors whose element at idx is offset + (base-4 digits of idx); the pointwise
    primitive is f(a_1..a_n) = Σ a_i * 1024^(n-i).
 -/
 import J2O.Model.C10
+import J2O.Model.C10Rules
+import J2O.Model.C10Tensor
 open J2O.C10
 
 def parseShape (s : String) : Option (List Nat) :=
@@ -21,8 +29,7 @@ def indices : List Nat → List (List Nat)
   | d :: ds => (List.range d).flatMap fun i => (indices ds).map fun r => i :: r
 
 /-- numpy compatibility of a list of shapes (right-aligned: equal or 1) -/
-def compat2 (s t : List Nat) : Bool :=
-  (List.zip s.reverse t.reverse).all fun p => p.1 == p.2 || p.1 == 1 || p.2 == 1
+-- `compat2` (numpy compatibility of two shapes) comes from `J2O.Model.C10Rules`
 def compatAll : List (List Nat) → Bool
   | [] => true
   | s :: ss => ss.all (compat2 s) && compatAll ss
@@ -52,6 +59,78 @@ partial def parseOps : Nat → List String → Option (List (Tensor Nat × Optio
     | _, _, _ => none
   | _, _ => none
 
+
+/-! ### FunctionPlugin._batching_rule -/
+
+def sumAll (x : Tensor Nat) : Nat := ((indices x.shape).map x.get).foldl (· + ·) 0
+
+def flipLast (s idx : List Nat) : List Nat :=
+  match s.reverse, idx.reverse with
+  | d :: _, i :: r => ((d - 1 - i) :: r).reverse
+  | _, _ => idx
+
+def weighted : Nat → List (Tensor Nat) → Nat
+  | _, [] => 0
+  | j, x :: xs => (j + 2) * sumAll x + weighted (j + 1) xs
+
+/-- a non-pointwise per-example function of any arity ≥ 1 -/
+def fdrv : List (Tensor Nat) → Tensor Nat
+  | [] => ⟨[], fun _ => 0⟩
+  | x :: rest => ⟨x.shape, fun idx => x.get (flipLast x.shape idx) + 1024 * weighted 0 rest⟩
+
+/-! ### AD registries -/
+
+def names (s : String) : List String := if s == "-" || s == "" then [] else s.splitOn ","
+
+def field (toks : List String) (k : String) : String :=
+  match toks.find? (fun t => t.startsWith (k ++ "=")) with
+  | some t => (t.drop (k.length + 1)).toString
+  | none => "-"
+
+def pairOf (s : String) : Option (String × String) :=
+  match s.splitOn ">" with
+  | [a, b] => some (a, b)
+  | _ => none
+
+def reqOf (s : String) : Option FwdReq :=
+  match s.splitOn ":" with
+  | [pr, ov, fb] => (pairOf pr).map fun p => ⟨p.1, p.2, ov == "1", fb == "1"⟩
+  | _ => none
+
+def ruleStr : Option Rule → String
+  | none => "-"
+  | some (.own o _) => "own." ++ o
+  | some (.fallback _) => "fallback"
+
+def adStep (toks : List String) : String :=
+  let u := names (field toks "U")
+  match (names (field toks "A")).mapM pairOf, (names (field toks "R")).mapM reqOf with
+  | some allow, some reqs =>
+    let regs : Regs := ⟨(names (field toks "J")).map fun p => (p, Rule.own p 0),
+                        (names (field toks "T")).map fun p => (p, Rule.own p 1),
+                        (names (field toks "X")).map fun p => (p, Rule.own p 2)⟩
+    match adPipeline allow [] (names (field toks "L")) (names (field toks "I")) reqs (names (field toks "P")) regs with
+    | none => "raises"
+    | some r => " ".intercalate (u.map fun p =>
+        s!"{p}:{ruleStr (lookupRule r.jvps p)}/{ruleStr (lookupRule r.transposes p)}/{ruleStr (lookupRule r.batchers p)}")
+  | _, _ => "bad-op"
+
+/-! ### reduction on the shared tensor model -/
+
+def encJ (shape : List Nat) : J2O.Tensor Nat :=
+  ⟨0, shape.length, fun k => shape.getD k 1,
+   fun i => (List.range shape.length).foldl (fun a k => 4 * a + i k) 1⟩
+
+def redLane (shape : List Nat) (bdim : Nat) (axes : Option (List Int)) (kd : Bool) (b : Nat) : String :=
+  let r := reductionBatchRule shape bdim axes
+  let ax := r.2.1.mergeSort (fun a c => a ≥ c)
+  let u := if kd then J2O.C10R.laneT r.2.2 b (J2O.C10R.sumAxesL ax (J2O.C10R.moveFront bdim (encJ shape)))
+           else J2O.C10R.laneT r.2.2 b (J2O.C10R.sumAxesDropL ax (J2O.C10R.moveFront bdim (encJ shape)))
+  let rank := if kd then shape.length - 1 else shape.length - 1 - ax.length
+  let sh := (List.range rank).map u.dim
+  let vals := (indices sh).map fun idx => toString (u.get fun m => idx.getD m 0)
+  s!"{shapeStr sh} | " ++ " ".intercalate vals
+
 def step (line : String) : String :=
   match line.trimAscii.toString.splitOn " " with
   | "bat" :: n :: rest =>
@@ -77,6 +156,24 @@ def step (line : String) : String :=
       let r := reductionBatchRule s b axes
       s!"{shapeStr r.1} {",".intercalate (r.2.1.map toString)} {r.2.2}"
     | _, _ => "bad-op"
+  | "fnb" :: n :: rest =>
+    match n.toNat? with
+    | none => "bad-op"
+    | some n =>
+      match parseOps n rest with
+      | none => "bad-op"
+      | some args =>
+        let (out, od) := fnBatchRule fdrv args
+        let vals := (indices out.shape).map fun i => toString (out.get i)
+        let ods := match od with | none => "n" | some k => toString k
+        s!"{ods} {shapeStr out.shape} | " ++ " ".intercalate vals
+  | "adp" :: toks => adStep toks
+  | ["redlane", sh, bd, ax, kd, b] =>
+    match parseShape sh, bd.toNat?, b.toNat? with
+    | some s, some bdim, some b =>
+      let axes : Option (List Int) := if ax == "none" then none else (ax.splitOn ",").mapM String.toInt?
+      if ax != "none" && axes.isNone then "bad-op" else redLane s bdim axes (kd == "1") b
+    | _, _, _ => "bad-op"
   | ["rsh", kd, ax, sh] =>
     -- rsh <0|1> <axes a,b|-> <shape> -> reduced shape
     match parseShape sh with
